@@ -44,7 +44,7 @@ BUNDLES = {
     "B1": ["c1\ts\tgene\t200\t300\t.\t-\t.\tID=g2", "c1\ts\tmRNA\t200\t300\t.\t-\t.\tID=m2;Parent=g2"],
     "B2": ["c1\ts\texon\t20\t30\t.\t+\t.\tID=e9;Parent=m9", "c1\ts\tmRNA\t1\t90\t.\t+\t.\tID=m9;Parent=g1"],
     "B3": ["c1\ts\texon\t1\t50\t.\t+\t.\tID=e1;Parent=m1;note=x"],
-    "B4": ["c1\ts\texon\t2\t50\t.\t+\t.\tID=e1;Parent=g1;note=y"],
+    "B4": ["c1\ts\texon\t2\t200000\t.\t+\t.\tID=e1;Parent=g1;note=y"],        # other columns, other bin, other parent
     "B5": ["c1\ts\texon\t80\t90\t.\t+\t.\tParent=m1"],
     "B6": ["c1\ts\tpart\t2\t3\t.\t+\t.\tID=p2;Parent=p1"],
     "B7": ["##only a directive", "# and a comment"],
@@ -63,7 +63,7 @@ GTF_UPDATES = [("G1", "merge"), ("G2", "merge"), ("G3", "merge"), ("G3", "create
                ("G4", "merge"), ("G4", "replace"), ("G5", "merge")]
 GTF_EVENTS = ["U:%s:%s" % u for u in GTF_UPDATES] + ["D:str:exon_1", "D:feat:T1", "D:list:CDS_1,exon_2"]
 GFF_EVENTS = ["U:%s:%s" % u for u in UPDATES] + ["D:str:e1", "D:feat:m1", "D:list:p1,exon_1", "D:str:g1", "A:plain", "A:rewrite"]
-EVENTS = list(INITS) + GFF_EVENTS + GTF_EVENTS + ["R"]
+EVENTS = list(INITS) + GFF_EVENTS + GTF_EVENTS + ["R", "P"]          # R = reopen, P = set_pragmas (changes nothing in the content)
 
 
 def depth_of(tier):
@@ -87,6 +87,19 @@ def _key(path, db):
     live = sorted(dict(db._autoincrements).items())
     blob = json.dumps([c["features"], c["relations"], c["autoincrements"], c["duplicates"], live], sort_keys=True, default=str)
     return hashlib.blake2b(blob.encode(), digest_size=10).hexdigest(), c
+
+
+def _canon_or_none(path):
+    try:
+        return dbutil.canon(path)
+    except Exception:
+        return None          # not even a database
+
+
+def _globals_fingerprint():
+    from gffutils import constants
+    return json.dumps([constants.dialect, constants.default_pragmas, constants.always_return_list,
+                       constants.ignore_url_escape_characters, constants._keys], sort_keys=True, default=str)
 
 
 def enabled(ev, model):
@@ -126,6 +139,8 @@ def apply_real(ev, db, path, wdir):
     elif ev == "R":
         dbutil.close_db(db)
         db = gffutils.FeatureDB(path)
+    elif ev == "P":
+        db.set_pragmas({"cache_size": 2000, "synchronous": "NORMAL"})
     return db
 
 
@@ -142,7 +157,39 @@ def apply_model(ev, model):
         model.add_relation("e1", "exon_1", 1, set_parent_attr=True)
 
 
+def run_scale(wdir):
+    """One large history: 1000 exons under one mRNA, all deleted in a single delete() call, then a small update."""
+    _clean(wdir)
+    lines = ["c1\ts\tgene\t1\t9000\t.\t+\t.\tID=g1", "c1\ts\tmRNA\t1\t9000\t.\t+\t.\tID=m1;Parent=g1"]
+    lines += ["c1\ts\texon\t%d\t%d\t.\t+\t.\tID=x%d;Parent=m1" % (1 + 9 * i, 5 + 9 * i, i) for i in range(1000)]
+    path = os.path.join(wdir, "big.db")
+    db = gffutils.create_db(dbutil.write_text(wdir, "big.gff", "\n".join(lines) + "\n"), path, verbose=False)
+    model = RefDB()
+    model.update(lines)
+    viol = []
+    try:
+        ids = ["x%d" % i for i in range(1000)]
+        db.delete(ids, make_backup=False)
+        model.delete(ids)
+        p = dbutil.write_text(wdir, "bundle.gff", "\n".join(BUNDLES["B5"]) + "\n")
+        db.update(p, merge_strategy="merge", make_backup=False, verbose=False)
+        model.update(BUNDLES["B5"], "merge")
+        got = impl_state(dbutil.canon(path, attr_sets=True))
+        exp = model.state()
+        if got["features"] != exp["features"]:
+            viol.append(dict(kind="features-differ-from-model", sig=dict(scale=True), detail=dict(n_got=len(got["features"]), n_expected=len(exp["features"]))))
+        if got["relations"] != exp["relations"]:
+            g, e = set(got["relations"]), set(exp["relations"])
+            viol.append(dict(kind="relations-differ-from-model", sig=dict(scale=True, extra=bool(g - e), missing=bool(e - g)),
+                             detail=dict(n_extra=len(g - e), n_missing=len(e - g), extra=sorted(g - e)[:5], missing=sorted(e - g)[:5])))
+    finally:
+        dbutil.close_db(db)
+    return dict(status="violation" if viol else "ok", key=None, violations=viol, info=dict(scale="delete of 1000 ids in one call"))
+
+
 def run_history(h, wdir, tag="bfs"):
+    if isinstance(tag, tuple) and tag[0] == "scale":
+        return run_scale(wdir)
     _clean(wdir)
     if not h:
         return dict(status="ok", key="root", violations=[], info=dict(root=True))
@@ -150,7 +197,7 @@ def run_history(h, wdir, tag="bfs"):
         return dict(status="disabled", key=None, violations=[], info=None)
     gtf = h[0] == "I:gtf"
     family = GTF_EVENTS if gtf else GFF_EVENTS
-    if any(ev != "R" and ev not in family for ev in h[1:]):
+    if any(ev not in ("R", "P") and ev not in family for ev in h[1:]):
         return dict(status="disabled", key=None, violations=[], info=None)
     init, h_full, h = INITS[h[0]], h, h[1:]
     path = os.path.join(wdir, "h.db")
@@ -158,6 +205,8 @@ def run_history(h, wdir, tag="bfs"):
     db = gffutils.create_db(src, path, verbose=False, **(GTF_KW if gtf else {}))
     model = RefDB("gtf" if gtf else "gff3")
     model.update(init)
+    dialect0 = json.dumps(db.dialect, sort_keys=True)
+    globals0 = _globals_fingerprint()
     fault = tag if isinstance(tag, tuple) and tag[0] == "fault" else None
     viol = []
     info = None
@@ -181,8 +230,11 @@ def run_history(h, wdir, tag="bfs"):
             backs_up = ev[0] in "UD"
             if last and backs_up:
                 pre = dbutil.canon(path)
-                if os.path.exists(path + ".bak"):
-                    os.unlink(path + ".bak")
+                # an unrelated, newer-looking '.bak' is already lying next to the database
+                with open(path + ".bak", "wb") as fh:
+                    fh.write(b"stale backup")
+                future = time.time() + 3600
+                os.utime(path + ".bak", (future, future))
             try:
                 db = apply_real(ev, db, path, wdir)
             except Exception as e:
@@ -195,7 +247,7 @@ def run_history(h, wdir, tag="bfs"):
                 bak = path + ".bak"
                 if not os.path.exists(bak):
                     viol.append(dict(kind="backup-missing", sig=dict(event=ev.split(":")[0]), detail=dict(history=list(h))))
-                elif dbutil.canon(bak) != pre:
+                elif _canon_or_none(bak) != pre:
                     viol.append(dict(kind="backup-differs-from-pre-operation-state", sig=dict(event=ev.split(":")[0]),
                                      detail=dict(history=list(h))))
         if fault is not None:
@@ -221,6 +273,24 @@ def run_history(h, wdir, tag="bfs"):
                              detail=dict(history=list(h), extra=sorted(g - e), missing=sorted(e - g))))
         if live != got:
             viol.append(dict(kind="live-connection-differs-from-file", sig=sig, detail=dict(history=list(h))))
+        # the dialect the database was created with stays what is reported, live and after reopening
+        re = gffutils.FeatureDB(path)
+        if json.dumps(db.dialect, sort_keys=True) != dialect0 or json.dumps(re.dialect, sort_keys=True) != dialect0:
+            viol.append(dict(kind="database-dialect-changed-by-history", sig=sig,
+                             detail=dict(history=list(h), original=dialect0, live=db.dialect, reopened=re.dialect)))
+        dbutil.close_db(re)
+        # every stored row carries the bin of its current coordinates
+        from gv.model import bins_ref
+        for row in c["features"]:
+            st, en, b = row[4], row[5], row[11]
+            if st is None or en is None:
+                continue
+            want = bins_ref.OFFS[bins_ref.smallest_level_containing(st - 1, en)] + ((st - 1) >> bins_ref.SHIFTS[bins_ref.smallest_level_containing(st - 1, en)])
+            if b != want:
+                viol.append(dict(kind="stored-bin-differs-from-coordinates", sig=sig, detail=dict(history=list(h), id=row[0], start=st, end=en,
+                                                                                               bin=b, expected=want)))
+        if _globals_fingerprint() != globals0:
+            viol.append(dict(kind="library-global-state-changed", sig=sig, detail=dict(history=list(h), before=globals0, after=_globals_fingerprint())))
         # the live object's own answers (counts, keyed look-ups) after the history
         types = {}
         for fid, f in model.feats.items():
@@ -269,8 +339,10 @@ def run_fault(h, fault, db, path, wdir):
             yield feature_from_line(t)
 
     pre = dbutil.canon(path)
-    if os.path.exists(path + ".bak"):
-        os.unlink(path + ".bak")
+    with open(path + ".bak", "wb") as fh:
+        fh.write(b"stale backup")
+    future = time.time() + 3600
+    os.utime(path + ".bak", (future, future))
     raised = None
     try:
         db.update(source(), merge_strategy="merge", make_backup=True, verbose=False, **(GTF_KW if bundle.startswith("G") else {}))
@@ -284,7 +356,7 @@ def run_fault(h, fault, db, path, wdir):
     if not os.path.exists(bak):
         viol.append(dict(kind="backup-missing-after-failed-update", sig=dict(fault_position=min(k, 2)),
                          detail=dict(history=list(h), **sig)))
-    elif dbutil.canon(bak) != pre:
+    elif _canon_or_none(bak) != pre:
         viol.append(dict(kind="backup-differs-from-pre-operation-state", sig=dict(event="U", fault=True),
                          detail=dict(history=list(h), **sig)))
     if k < len(lines) and raised is None:
@@ -297,7 +369,7 @@ def run(tier, seed):
     depth = depth_of(tier)
 
     def extra(reps):
-        items = []
+        items = [(("scale", "delete1000"), ("I:chain",))]
         for d in (1, 2, 3):
             for h in reps.get(d, []):
                 for b in (("G2", "G3") if h and h[0] == "I:gtf" else ("B1", "B2", "B3", "B4")):
@@ -309,10 +381,7 @@ def run(tier, seed):
 
     def confirm(v):
         tag = tuple(v["tag"]) if isinstance(v.get("tag"), (list, tuple)) else "bfs"
-        d = os.path.join(history._ST["tmpdir"], "confirm")
-        os.makedirs(d, exist_ok=True)
-        r = run_history(tuple(v["history"]), d, tag)
-        return any(x["kind"] == v["kind"] for x in r["violations"])
+        return history.replay_isolated(run_history, tuple(v["history"]), tag, v["kind"])
 
     return report.conclude(
         ID, tier, seed, states=res.states, transitions=res.transitions, executions=res.histories + res.extra_runs,
